@@ -15,7 +15,7 @@ PLAN = {
 BUDGET = {"quick": 50, "thorough": 900}
 RULE = (
     "tasks_limit 1-5, 1-3 queues sharing it, 5-60 messages (fewer on network brokers), actor duration profiles (zero, equal, "
-    "heavy-tailed, one never-ending until its timeout), failures with retries, bodies ending with CancelledError (in-memory, Redis), arrivals: all before start / in bursts while the "
+    "heavy-tailed, one never-ending until its timeout and then slow to react to the cancellation), failures with retries, bodies ending with CancelledError (in-memory, Redis), arrivals: all before start / in bursts while the "
     "worker is saturated / anchored to the loop step at which a slot frees (enqueue task spawned k = 0..6 steps after an actor "
     "exits). Monitor: number of actor bodies in progress <= tasks_limit at every entry. Liveness: every job executed within "
     "3 x sum(durations)/tasks_limit + 30 s (+ poll constants); a kernel deadlock verdict (nothing runnable, nothing scheduled) "
@@ -63,7 +63,7 @@ def gen(rng, broker, tier):
             j["ttl_s"] = rng.choice([1, 1, 2])  # may expire while waiting for a slot: must not cost a slot
         if prof == "one-hangs" and i == 0:
             j["timeout_s"] = 1
-            j["beh"] = [{"do": "hang"}]
+            j["beh"] = [{"do": "hang", "cleanup_us": rng.choice([0, 0, 300_000, 900_000])}]
         how = arrivals if arrivals != "mixed" else rng.choice(["before", "burst", "anchored"])
         if how == "before" or i < limit:
             j["at_us"] = 0
